@@ -26,7 +26,8 @@ Open Scope N_scope.
 
 Record pubT := mkP { po : N; pe : N; pf : bool }.
 
-Inductive tok := TPub (p : pubT) | TJoin | TLeave.
+Inductive tok := TPub (p : pubT) | TJoin | TLeave
+  | TMark.   (* the channel medium's insufficient-state marker: Publication{Offset: MaxUint64}, empty epoch *)
 
 Inductive variant := VClient | VServer.
 
@@ -83,7 +84,8 @@ Inductive phase := PSync | PCheck | PEnq.
 Inductive dstate :=
   | DIdle
   | DPub (p : pubT) (lag : bool) (ph : phase)
-  | DJL (join : bool) (ph : phase).      (* PCheck | PEnq only *)
+  | DJL (join : bool) (ph : phase)       (* PCheck | PEnq only *)
+  | DMark.                               (* the marker, before its position check *)
 
 (* unsubscribe-like threads: client command, server API, async insufficient-state *)
 Inductive ukind := UClient | UServer | UInsuff.
@@ -225,6 +227,7 @@ Inductive label :=
   | LPublish (f : bool) (size : nat)        (* publish with history (HistorySize = size >= 1) *)
   | LPublishNoHist (f : bool)               (* publish without history: offset 0 *)
   | LJoinEv | LLeaveEv                      (* broker emits a join / leave message *)
+  | LMarker                                 (* the channel medium broadcasts its insufficient-state marker *)
   | LDrop (i : nat) | LDup (i : nat)
   | LClearHistory | LEpochReset
   (* delivery thread (one broadcast at a time per channel) *)
@@ -299,6 +302,7 @@ Definition step (c : cfg) (s : st) (l : label) : option st :=
       Some (set_broker s (b_ep s) (b_top s) (b_items s) (b_fresh s) (g_log s ++ [p]) (fl s ++ [TPub p]))
   | LJoinEv => Some (set_fl s (fl s ++ [TJoin]))
   | LLeaveEv => Some (set_fl s (fl s ++ [TLeave]))
+  | LMarker => Some (set_fl s (fl s ++ [TMark]))
   | LDrop i => match nth_error (fl s) i with Some _ => Some (set_fl s (remove_nth i (fl s))) | None => None end
   | LDup i => match nth_error (fl s) i with Some t => Some (set_fl s (fl s ++ [t])) | None => None end
   | LClearHistory => Some (set_broker s (b_ep s) (b_top s) [] (b_fresh s) (g_log s) (fl s))
@@ -325,6 +329,10 @@ Definition step (c : cfg) (s : st) (l : label) : option st :=
                    else Some (set_dl s1 (DPub p lag PSync))
                | TJoin => Some (set_dl s1 (DJL true PCheck))
                | TLeave => Some (set_dl s1 (DJL false PCheck))
+               | TMark =>
+                   (* modelled only outside the subscribe window (no PubSubSync entry): there
+                      SyncPublication passes it straight to the position check *)
+                   if ps_entry s then None else Some (set_dl s1 DMark)
                end
       end
   | LSync =>
@@ -340,6 +348,15 @@ Definition step (c : cfg) (s : st) (l : label) : option st :=
   | LCheck =>
       match dl s with
       | DPub p lag PCheck => Some (check_pub c s p lag)
+      | DMark =>
+          (* writePublicationUpdatePosition with pub.Offset = MaxUint64 and an empty epoch:
+             a positioned subscription takes the epoch-mismatch (or, after adopting an empty
+             epoch, the gap) branch; a non-positioned one returns before writing anything *)
+          match ch s with
+          | Sub _ _ => if c_pos c then Some (set_dl (set_pending s (S (pending s))) DIdle)
+                       else Some (set_dl s DIdle)
+          | _ => Some (set_dl s DIdle)
+          end
       | DJL j PCheck =>
           match ch s with
           | Sub _ _ => if c_jl c then Some (set_dl s (DJL j PEnq)) else Some (set_dl s DIdle)
